@@ -1,7 +1,7 @@
 /* E-libc: contract model of snprintf (CBMC's built-in model writes nothing).
  * Writes at most `size` bytes, NUL-terminates iff size >= 1, returns the
  * untruncated length. For the formats "%s" and "%.4s" the argument string is copied; any
- * other format yields nondet printable bytes of nondet length < SNP_MAX.
+ * other format yields nondet printable bytes of nondet length < SNP_MAX (a literal format of <= 8 characters without '%' is copied as is).
  * Loops are bounded by SNP_MAX (harness bound on the produced text). */
 #if defined (__CPROVER__) || defined (VERIF_CBMC)	/* native replay uses the real function */
 #include <stdarg.h>
@@ -10,6 +10,16 @@
 #ifndef SNP_MAX
 #define SNP_MAX 24
 #endif
+/* a format of at most 8 characters without any '%' is copied literally (unrolled: no loop, no unwinding bound) */
+static int
+snp_short_literal (const char *f)
+{
+#define SNP_STEP(k)	if (f [k] == 0) return 1 ; if (f [k] == '%') return 0 ;
+	SNP_STEP (0) SNP_STEP (1) SNP_STEP (2) SNP_STEP (3) SNP_STEP (4) SNP_STEP (5) SNP_STEP (6) SNP_STEP (7) SNP_STEP (8)
+#undef SNP_STEP
+	return 0 ;
+}
+
 int
 snprintf (char *str, size_t size, const char *fmt, ...)
 {	va_list ap ;
@@ -22,7 +32,9 @@ snprintf (char *str, size_t size, const char *fmt, ...)
 	else if (fmt [0] == '%' && fmt [1] == '.' && fmt [2] == '4' && fmt [3] == 's' && fmt [4] == 0)
 	{	src = va_arg (ap, const char *) ;
 		prec = 4 ;
-		} ;
+		}
+	else if (snp_short_literal (fmt))
+		src = fmt ;
 	va_end (ap) ;
 	if (src != NULL)
 	{	for (n = 0 ; n < SNP_MAX ; n++)
